@@ -319,15 +319,27 @@ Proof.
   - exfalso. apply Hnz. rewrite Hcw. apply Hothers; assumption.
 Qed.
 
-(* abnormal terminations have a non-zero exit code *)
+(* abnormal terminations have a non-zero exit code -- os._exit(k) only when k is not a
+   multiple of 256: the status is cut to its low 8 bits before the parent can see it *)
 Lemma exit_code_nonzero : forall m,
   match m with
   | NoFail => exit_code_of m = 0%Z
   | Raises => exit_code_of m <> 0%Z
-  | Exits k => (k <> 0%Z -> exit_code_of m <> 0%Z)
+  | Exits k => (0 <= exit_code_of m < 256)%Z /\
+               (k mod 256 <> 0 -> exit_code_of m <> 0)%Z /\
+               (0 < k < 256 -> exit_code_of m = k /\ exit_code_of m <> 0)%Z
   | Killed s => ((0 < s)%Z -> (exit_code_of m < 0)%Z)
   end.
-Proof. intros [| |k|s]; cbn; intros; lia. Qed.
+Proof.
+  intros [| |k|s]; cbn [exit_code_of]; try (intros; lia).
+  split; [apply Z.mod_pos_bound; lia|]. split; [auto|].
+  intros Hk. rewrite Z.mod_small by lia. lia.
+Qed.
+
+(* os._exit(256): an exit the parent cannot tell from a normal one *)
+Lemma exit_256_is_zero : exit_code_of (Exits 256) = 0%Z /\ exit_code_of (Exits (-1)) = 255%Z /\
+  exit_code_of (Exits 3) = 3%Z /\ exit_code_of (Killed 9) = (-9)%Z /\ exit_code_of Raises = 1%Z.
+Proof. repeat split; reflexivity. Qed.
 
 (* stage level: nothing that is done only after a clean drain happens when the pool raised *)
 Lemma stage_effects : forall s r,
